@@ -179,6 +179,11 @@ func run(ctx *core.Ctx, in input) error {
 			sender[in.Opts.DecKeyName] = r.Bytes(32)
 		}
 		res := encx.RunEncrypt(*in.Opts, p, in.Script, sender, in.WfkLen, r.Fork())
+		if res.CallErr != nil && res.Wrapped && len(res.Np) == 0 {
+			// Encrypt failed after it had drawn the file key and the nonce prefix: the prefix cannot be
+			// observed; nothing Encrypt decides at that point depends on its value, only on its 7 bytes
+			res.Np = make([]byte, 7)
+		}
 		c := hx.Case{Kind: "enc", Input: hx.MustJSON(in), Facts: facts}
 		c.Class = fmt.Sprintf("enc/%s/%s/%s/%s/%s", encx.LenClass(len(p)), cphName(in.Opts), in.Opts.Alg,
 			in.Opts.KnCombo(), in.Script.Shape())
